@@ -19,10 +19,22 @@ EmptyCases == {[id |-> "op " \o ka \o " + empty str", setup |-> <<"a = " \o ValA
 (* op-assignment: the target keeps its static type, so the stored result must have that kind *)
 OpAssignCases == {[id |-> "opassign " \o ka \o " " \o op \o "= " \o kb, setup |-> <<"a = " \o ValA(ka), "b = " \o ValB(kb), "a " \o op \o "= b">>, e |-> "a"] :
                     op \in {"+", "-", "*", "/", "%"}, ka \in Kinds6, kb \in Kinds6}
+(* writes through a chain of constant / run-time brackets, then the slot is read back *)
+ChainWrites == {
+  [id |-> "chainwrite lm[0][2] =", setup |-> <<"lm[0][2] = \"w\"">>, e |-> "lm[0][2]"],
+  [id |-> "chainwrite lm[0][2] +=", setup |-> <<"lm[0][2] += \"w\"">>, e |-> "lm[0][2]"],
+  [id |-> "chainwrite lm[z0][z2] =", setup |-> <<"lm[z0][z2] = \"w\"">>, e |-> "lm[0][2]"],
+  [id |-> "chainwrite ml[a][1] =", setup |-> <<"ml[\"a\"][1] = 50">>, e |-> "ml[\"a\"][1]"],
+  [id |-> "chainwrite ml[a][1] +=", setup |-> <<"ml[\"a\"][1] += 50">>, e |-> "ml[\"a\"]"],
+  [id |-> "chainwrite mim[1][0] =", setup |-> <<"mim[1][0] = 50">>, e |-> "mim[1][0]"],
+  [id |-> "chainwrite ll[1][0] +=", setup |-> <<"ll[1][0] += 50">>, e |-> "ll[1]"],
+  [id |-> "chainwrite ll[1][z0] =", setup |-> <<"ll[1][z0] = 50">>, e |-> "ll[1][0]"]}
 UnCases == {[id |-> "un " \o u \o " " \o k, setup |-> <<"a = " \o ValA(k)>>, e |-> u \o "a"] : u \in {"-", "!"}, k \in Kinds6}
 
 Recv == [str |-> "\"abc\"", int |-> "5", bigint |-> "B5", float |-> "2.5", byte |-> "0b101", list |-> "il", map |-> "mp", fnv |-> "fv", clo |-> "cl",
-         opt |-> "op1", nilopt |-> "op0", obj |-> "bx", strs |-> "sl", num |-> "\"42\"", lol |-> "ll", imap |-> "mi", fixl |-> "fx"]
+         opt |-> "op1", nilopt |-> "op0", obj |-> "bx", strs |-> "sl", num |-> "\"42\"", lol |-> "ll", imap |-> "mi", fixl |-> "fx",
+         \* containers inside containers: a list of int-keyed maps, a map of lists, an int-keyed map of lists
+         lom |-> "lm", mol |-> "ml", imol |-> "mim"]
 Calls == {
   <<"str", ".len()">>, <<"str", ".substring(z0, z1)">>, <<"str", ".contains(\"a\")">>, <<"str", ".index_of(\"b\")">>, <<"str", ".index_of(\"q\")">>,
   <<"str", ".reverse()">>, <<"str", ".insert(\"x\", z1)">>, <<"str", ".replace(\"a\", \"b\")">>, <<"str", ".delete(z0, z1)">>, <<"str", ".split(z1)">>,
@@ -51,7 +63,12 @@ Calls == {
   <<"obj", " is bx">>, <<"obj", ".w">>, <<"obj", ".ws">>, <<"obj", ".mk(2)">>, <<"obj", ".cb(2)">>, <<"obj", ".cb">>,
   <<"imap", "[1]">>, <<"imap", "[z1]">>, <<"imap", "[2 - 1]">>, <<"imap", "[B1]">>, <<"imap", ".len()">>, <<"imap", ".contains_key(2)">>, <<"imap", ".remove(2)">>,
   <<"fixl", "[0]">>, <<"fixl", "[2]">>, <<"fixl", ".len()">>, <<"fixl", ".reverse()">>, <<"fixl", ".remove(2)">>, <<"fixl", ".index_of(1)">>, <<"fixl", ".map(dbl)">>,
-  <<"list", "[fl]">>, <<"list", "[op1]">>, <<"str", "[fl]">>, <<"list", "[z0 + z1]">>, <<"map", "[z0]">>, <<"lol", "[z0][z1]">> }
+  <<"list", "[fl]">>, <<"list", "[op1]">>, <<"str", "[fl]">>, <<"list", "[z0 + z1]">>, <<"map", "[z0]">>, <<"lol", "[z0][z1]">>,
+  \* index chains through nested containers, with constant and with run-time parts: every bracket is an operation of the
+  \* container it is applied to (list position or map key), whatever the outermost container is
+  <<"lom", "[0][2]">>, <<"lom", "[z0][2]">>, <<"lom", "[0][z2]">>, <<"lom", "[0]">>, <<"mol", "[\"a\"][1]">>, <<"mol", "[\"a\"][z1]">>,
+  <<"imol", "[1][0]">>, <<"imol", "[1][z0]">>, <<"imol", "[z1][0]">>, <<"lol", "[1][0]">>, <<"lol", "[1][z0]">>, <<"strs", "[1][0]">>, <<"strs", "[z1][1]">>,
+  <<"lom", "[0].len()">>, <<"mol", "[\"a\"].len()">>, <<"lom", "[0].contains_key(2)">> }
 CallCases == {[id |-> "call " \o c[1] \o c[2], setup |-> <<>>, e |-> Recv[c[1]] \o c[2]] : c \in Calls}
 Prefixed == {[id |-> "pre get op1", setup |-> <<>>, e |-> "get op1"], [id |-> "pre (op1) or 9", setup |-> <<>>, e |-> "(op1) or 9"],
              [id |-> "pre (op0) or 9", setup |-> <<>>, e |-> "(op0) or 9"], [id |-> "pre typeof il", setup |-> <<>>, e |-> "typeof il"],
@@ -66,7 +83,7 @@ Prefixed == {[id |-> "pre get op1", setup |-> <<>>, e |-> "get op1"], [id |-> "p
               setup |-> <<"cru = fn(n: int) -> int {", "	idx = 7", "	from 0 to n, idx {", "		n = n + 0", "	}", "	return idx + n", "}">>]}
 
 Prologue == <<"z0 = 0", "z1 = 1", "z2 = 2", "fl = 1.5", "il: [int...] = [1, 2, 3]", "sl: [str...] = [\"x\", \"yy\"]", "ll: [[int...]...] = [[1], [2, 3]]",
-              "mp = map[str, int]{\"a\": 1, \"b\": 2}", "mi = map[int, str]{1: \"a\", 2: \"b\"}", "const fx = [10, 20, \"total\"]", "fv = fn() -> int { return 7 }", "cnt = 0",
+              "mp = map[str, int]{\"a\": 1, \"b\": 2}", "mi = map[int, str]{1: \"a\", 2: \"b\"}", "lm: [map[int, str]...] = [mi]", "ml = map[str, [int...]]{\"a\": il}", "mim = map[int, [int...]]{1: il}", "const fx = [10, 20, \"total\"]", "fv = fn() -> int { return 7 }", "cnt = 0",
               "cl = fn() -> int {", "	modify cnt = cnt + 1", "	return cnt", "}",
               "dbl = fn(q: int) -> int { return q * 2 }", "big = fn(q: int) -> bool { return q > 1 }", "slen = fn(q: str) -> int { return q.len() }",
               "fact = fn(n: int) -> int {", "	if n <= 1 {", "		return 1", "	}", "	return n * self(n - 1)", "}",
@@ -80,7 +97,7 @@ Prologue == <<"z0 = 0", "z1 = 1", "z2 = 2", "fl = 1.5", "il: [int...] = [1, 2, 3
 (* variable) or inside a method                                                                                         *)
 Ctxs == {"module", "closure", "method"}
 VARIABLES c, ctx
-Init == c \in OpCases \cup EmptyCases \cup OpAssignCases \cup UnCases \cup CallCases \cup Prefixed /\ ctx \in Ctxs
+Init == c \in OpCases \cup EmptyCases \cup OpAssignCases \cup UnCases \cup CallCases \cup Prefixed \cup ChainWrites /\ ctx \in Ctxs
 Next == UNCHANGED <<c, ctx>>
 Probe(ind) == <<ind \o "r = " \o c.e, ind \o "print typeof r", ind \o "print r">>
 Lines == Prologue \o c.setup \o <<"print \"GO\"">> \o
